@@ -95,6 +95,10 @@ struct FnCfg {
     /// R3h: `X.iter().any(c)` / `V.contains(&x)` become calls of the verified helpers vx_any / vx_contains
     helpers: bool,
     vec_receivers: Vec<String>,
+    /// R22: names of local closures that are inlined at their call sites
+    inline_closures: Vec<String>,
+    /// R23: String-typed locals whose comparisons with string literals go through `.as_str()`
+    string_vars: Vec<String>,
     /// per item: more receivers R such that `R.iter()` is the eager accessor `iter` of the store
     eager_receivers: Vec<String>,
     /// R21: `write!` / `writeln!` / `.flush()` become calls of vx_write<n> / vx_flush (ghost log of the text events)
@@ -129,6 +133,8 @@ struct R<'a> {
     next_id: usize,
     rules: BTreeSet<String>,
     named_closures: HashMap<String, ExprClosure>,
+    /// R22: closures to inline at their direct call sites
+    inline_closures: HashMap<String, ExprClosure>,
     in_foreach: usize,
 }
 
@@ -140,6 +146,8 @@ enum Stage {
     MapWhile(ExprClosure),
     TakeWhile(ExprClosure),
     Enumerate,
+    /// `.skip(n)`: the first n elements are passed over
+    Skip(Expr),
     /// `.copied()` / `.cloned()`: the element by value
     Copied,
     Cloned,
@@ -157,6 +165,8 @@ enum SourceKind {
     Eager,
     /// R9: `X.cart_prod()` of the external crate `permutator` (assumed contract, see enc_exp)
     CartProd,
+    /// R24: `S.split_whitespace()` / `S.split_ascii_whitespace()`: the words of a text, through the assumed `vx_words`
+    Words,
 }
 
 #[derive(Clone)]
@@ -298,6 +308,12 @@ impl<'a> R<'a> {
             }]),
             Expr::MethodCall(mc) => {
                 let name = mc.method.to_string();
+                if (name == "split_whitespace" || name == "split_ascii_whitespace") && mc.args.is_empty() {
+                    return Some(vec![Source {
+                        kind: SourceKind::Words,
+                        expr: (*mc.receiver).clone(),
+                    }]);
+                }
                 if name == "cart_prod" && mc.args.is_empty() {
                     Some(vec![Source {
                         kind: SourceKind::CartProd,
@@ -344,6 +360,7 @@ impl<'a> R<'a> {
                         ("map_while", 1) => Stage::MapWhile(closure_of(&mc.args[0])?),
                         ("take_while", 1) => Stage::TakeWhile(closure_of(&mc.args[0])?),
                         ("enumerate", 0) => Stage::Enumerate,
+                        ("skip", 1) => Stage::Skip(mc.args[0].clone()),
                         ("copied", 0) => Stage::Copied,
                         ("cloned", 0) => Stage::Cloned,
                         _ => return None,
@@ -410,6 +427,12 @@ impl<'a> R<'a> {
                     out.push_str(&format!("let {} = {};\n", sv, src_text));
                     sv
                 }
+                SourceKind::Words => {
+                    self.rule("R24:words->eager(assumed)");
+                    let sv = format!("__s{}", k);
+                    out.push_str(&format!("let {} = vx_words(&({}));\n", sv, src_text));
+                    sv
+                }
                 SourceKind::CartProd => {
                     self.rule("R9:cart_prod->eager(assumed)");
                     let sv = format!("__s{}", k);
@@ -472,6 +495,13 @@ impl<'a> R<'a> {
                             "if !{{ let {} = &{}; {} }} {{ break; }}\n",
                             pat, cur, b
                         ));
+                    }
+                    Stage::Skip(n) => {
+                        let nt = self.render_expr(n);
+                        let cv = format!("__c{}", k);
+                        out.push_str(&format!("let mut {}: usize = 0;\n", cv));
+                        body.push_str(&format!("if {} < {} {{ {} += 1; }} else {{\n", cv, nt, cv));
+                        closers += 1;
                     }
                     Stage::Copied | Stage::Cloned => {
                         let nx = { mcount += 1; format!("__m{}x{}", k, mcount - 1) };
@@ -982,6 +1012,13 @@ impl<'r, 'a> V<'r, 'a> {
                         } else if uses == 1 && rest.contains(&format!(".for_each({})", id)) {
                             self.r.named_closures.insert(id, c.clone());
                             dropped.insert(i);
+                        } else if self.r.fc.inline_closures.contains(&id)
+                            && uses > 0
+                            && uses == rest.matches(&format!("{}(", id)).count()
+                        {
+                            // R22: a local closure that is only ever called directly is inlined at its call sites
+                            self.r.inline_closures.insert(id, c.clone());
+                            dropped.insert(i);
                         }
                     }
                 }
@@ -1002,6 +1039,12 @@ impl<'r, 'a> V<'r, 'a> {
                     self.edits.push(Edit { start: a, end: e, text: String::new() });
                     continue;
                 }
+                skipping = false;
+                self.r.rule("R11:fragment-slice");
+            }
+            if truncated {
+                self.edits.push(Edit { start: a, end: e, text: String::new() });
+                continue;
             }
             if is_loop_body && i + 1 < b.stmts.len() {
                 if let Stmt::Expr(Expr::If(ife), _) = st {
@@ -1271,7 +1314,48 @@ impl<'r, 'a, 'ast> Visit<'ast> for V<'r, 'a> {
                     }
                 }
             }
+            Expr::Binary(bn) if matches!(bn.op, BinOp::Eq(_) | BinOp::Ne(_)) && !self.r.fc.string_vars.is_empty() => {
+                // R23: `s == "lit"` for a declared String local s is `s.as_str() == "lit"` (that is how String compares to &str)
+                let is_lit = |e: &Expr| matches!(strip_paren(e), Expr::Lit(ExprLit { lit: Lit::Str(_), .. }));
+                let var_of = |e: &Expr| -> Option<String> {
+                    if let Expr::Path(p) = strip_paren(e) { p.path.get_ident().map(|i| i.to_string()) } else { None }
+                };
+                let (l, r) = (&*bn.left, &*bn.right);
+                let lv = var_of(l).filter(|v| self.r.fc.string_vars.contains(v));
+                if lv.is_some() && is_lit(r) {
+                    self.r.rule("R23:string-literal-comparison");
+                    let op = if matches!(bn.op, BinOp::Eq(_)) { "==" } else { "!=" };
+                    let rt = self.r.text(r.span()).to_string();
+                    self.replace(e.span(), format!("({}.as_str() {} {})", lv.unwrap(), op, rt));
+                    return;
+                }
+                visit::visit_expr(self, e);
+            }
             Expr::Call(c) => {
+                // R22: direct call of a local closure that is being inlined
+                if let Expr::Path(pp) = strip_paren(&c.func) {
+                    if let Some(id) = pp.path.get_ident() {
+                        if let Some(cl) = self.r.inline_closures.get(&id.to_string()).cloned() {
+                            if cl.inputs.len() == c.args.len() {
+                                self.r.rule("R22:local-closure-inlining");
+                                let mut t = String::from("{ ");
+                                for (pat, a) in cl.inputs.iter().zip(c.args.iter()) {
+                                    let pt = self.r.text(pat.span()).to_string();
+                                    let at = self.r.render_expr(a);
+                                    t.push_str(&format!("let {} = {}; ", pt, at));
+                                }
+                                let save = self.r.in_foreach;
+                                self.r.in_foreach = 0;
+                                let body = self.r.render_expr(&cl.body);
+                                self.r.in_foreach = save;
+                                t.push_str(&body);
+                                t.push_str(" }");
+                                self.replace(e.span(), t);
+                                return;
+                            }
+                        }
+                    }
+                }
                 // R18: call of a closure stored in an opaque field
                 if let Expr::Field(f) = strip_paren(&c.func) {
                     if let (Member::Named(id), Expr::Path(bp)) = (&f.member, strip_paren(&f.base)) {
@@ -2089,6 +2173,8 @@ fn main() {
             helpers: it["helpers"].as_bool().unwrap_or(false),
             vec_receivers: it["vec_receivers"].as_array().map(|a| a.iter().map(|v| v.as_str().unwrap().to_string()).collect()).unwrap_or_default(),
             text_out: it["text_out"].as_bool().unwrap_or(false),
+            inline_closures: it["inline_closures"].as_array().map(|a| a.iter().map(|v| v.as_str().unwrap().to_string()).collect()).unwrap_or_default(),
+            string_vars: it["string_vars"].as_array().map(|a| a.iter().map(|v| v.as_str().unwrap().to_string()).collect()).unwrap_or_default(),
             eager_receivers: it["eager_receivers"].as_array().map(|a| a.iter().map(|v| v.as_str().unwrap().to_string()).collect()).unwrap_or_default(),
             custom_iters: it["custom_iters"].as_array().map(|a| a.iter().map(|v| v.as_str().unwrap().to_string()).collect()).unwrap_or_default(),
             box_receivers: it["box_receivers"].as_array().map(|a| a.iter().map(|v| v.as_str().unwrap().to_string()).collect()).unwrap_or_default(),
@@ -2116,6 +2202,7 @@ fn main() {
             next_id: 0,
             rules: BTreeSet::new(),
             named_closures: HashMap::new(),
+            inline_closures: HashMap::new(),
             in_foreach: 0,
         };
         let (span, rendered, name, extra) = match &found.item {
